@@ -138,6 +138,12 @@ DtCases(t) ==
            in |-> Frame(t, PosBytes(t, MinVal(t)) \o TagDefEnc(tg[i].tag) \o LenEnc(tg[i].len, Len(body)) \o body),
            base |-> Frame(t, PosBytes(t, MinVal(t)))] : o \in 1..Len(DtOrders)} : i \in idx}
 
+\* bytes behind a packet that carries something the library does not know (a foreign group between its own, or at the end of a nested
+\* container): what follows the packet is handed back untouched all the same
+FSuffixCases(t, v) ==
+  LET fs == {x \in CasesOf(t, v) \cup NestedTailCases(t, v) : x.cls \in {"foreign", "nestedtail"}} IN
+  {[ty |-> t, cls |-> "fsuffix", in |-> x.in \o sfx, base |-> x.in, tail |-> Len(sfx)] : x \in fs, sfx \in {<<0>>, <<6>>, <<128, 0, 0>>, <<31, 254>>}}
+
 \* ---- all cases, as one sequence per type (computed once) -------------------------------------
 SetSeq(S) == SetToSeq(S)
 C13Of(i) == LET t == Types[i]
@@ -150,6 +156,7 @@ C14Of(i) == LET t == Types[i]
                 canon == SelectSeq(vs, LAMBDA v : Canonical(t, v))
                 pick == IF Len(canon) = 0 THEN <<>> ELSE <<canon[1], canon[IF Len(canon) >= 2 THEN 2 ELSE 1], canon[Len(canon)]>> IN
             Flatten([b \in 1..Len(pick) |-> SuffixCases(t, pick[b], Suffixes)])
+            \o (IF Canonical(t, TypVal(t)) THEN SetSeq(FSuffixCases(t, TypVal(t))) ELSE <<>>)
             \o Flatten([b \in 1..Len(canon) |->
                   IF Thorough \/ b % 8 = 0 THEN SuffixCases(t, canon[b], FewSuffixes) ELSE <<>>])
 
